@@ -2,7 +2,7 @@
 import dm
 import gen_dm
 from props import _design as D
-from props._design import describe, nontrivial, unsupported, prepare, model_cmd, impl_obs, compare, CASE_TIMEOUT  # noqa: F401
+from props._design import describe, nontrivial, unsupported, prepare, CASE_TIMEOUT  # noqa: F401
 
 ID = "C15"
 PROP_FILES = ["Properties/C15.v"]
@@ -112,9 +112,57 @@ def gen(rng, tier):
         rhs = rng.choice(["x + f", "0 + w + g", "x:f + (1 | g)", "w"])
         cases.append({"formula": f"z ~ {rhs}", "frame": fr, "na": "drop", "kind": "num", "resp": "z", "rhs": rhs,
                       "tag": "big-int-response"})
+    # a call response whose result is a bare ordered Categorical (array, not Series): the declared order, including a
+    # declared level nobody is in, is the order of the indicator columns
+    for i in range(10 if tier != "thorough" else 80):
+        rhs = rng.choice(["x + g", "0 + w", "x:g + (1 | h)", "w"])
+        var = rng.choice(["f", "h", "k"])
+        cases.append({"formula": f"ordc({var}) ~ {rhs}", "frame": gen_dm.make_frame(rng), "na": "drop", "kind": "ordcall",
+                      "resp": f"ordc({var})", "rhs": rhs, "tag": "ordered-call", "var": var})
     for rhs in ["x + f", "0 + x", "x + (1|g)"]:
         cases.append({"formula": rhs, "frame": gen_dm.make_frame(rng), "na": "drop", "kind": "none", "resp": None, "rhs": rhs})
     return cases
+
+
+def _ns(c):
+    """user functions of the call-response stratum: they return a bare ORDERED pandas Categorical (an array, not a
+    Series) whose declared order is the reverse of the sorted one, with one declared level nobody is in"""
+    if c.get("tag") != "ordered-call":
+        return None
+    import pandas as pd
+
+    def ordc(v):
+        lv = sorted(set(str(x) for x in v), reverse=True)
+        return pd.Categorical([str(x) for x in v], categories=lv[:1] + ["unseen-level"] + lv[1:], ordered=True)
+    return {"ordc": ordc}
+
+
+def _build(c):
+    if c.get("tag") == "ordered-call":
+        from formulae import design_matrices
+        return design_matrices(c["formula"], dm.to_pandas(c["frame"]), extra_namespace=_ns(c))
+    return dm.build(c)
+
+
+def model_cmd(c):
+    if c.get("tag") == "ordered-call":
+        c = dict(c, formula="y ~ " + c["rhs"])    # placeholder: decided by the oracle alone
+    return D.model_cmd(c)
+
+
+def impl_obs(c):
+    if c.get("tag") == "ordered-call":
+        try:
+            return ["ok", dm.observe_design(_build(c))]
+        except Exception as e:  # noqa
+            return ["err", type(e).__name__, str(e)[:160]]
+    return D.impl_obs(c)
+
+
+def compare(c, mo, obs):
+    if c.get("tag") == "ordered-call":
+        return None
+    return D.compare(c, mo, obs)
 
 
 def oracle(c):
@@ -130,7 +178,7 @@ def oracle(c):
         used = [v for v in df.columns if v in names]
         df = df[~df[used].isna().any(axis=1).to_numpy()].reset_index(drop=True)
     try:
-        d = dm.build(c)
+        d = _build(c)
     except Exception as e:
         if kind == "bad":
             if isinstance(e, (ValueError, TypeError, AttributeError)) or "Error" in type(e).__name__:
@@ -189,6 +237,17 @@ def oracle(c):
             return f"{f!r}: response.levels {d.response.levels}, expected {lv}"
         if d.response.kind != "categoric":
             return f"{f!r}: kind {d.response.kind}"
+    elif kind == "ordcall":
+        vals = [str(x) for x in df[c["var"]].tolist()]
+        srt = sorted(set(vals), reverse=True)
+        lv = srt[:1] + ["unseen-level"] + srt[1:]
+        if R.shape[1] != len(lv):
+            return f"{f!r}: the response has {R.shape[1]} columns, the call returns an ordered Categorical declaring {lv}"
+        for j, l in enumerate(lv):
+            if not np.array_equal(R[:, j], np.array([1.0 if v == l else 0.0 for v in vals])):
+                return f"{f!r}: column {j} of the response is not the indicator of the declared level {l!r} (declared order {lv})"
+        if [str(x) for x in (d.response.levels or [])] != lv:
+            return f"{f!r}: response.levels {d.response.levels}, declared order {lv}"
     elif kind == "level":
         var = resp.split("[", 1)[0]
         level = resp.split("[", 1)[1].rstrip("]").strip("'\"")
